@@ -5,9 +5,12 @@ import (
 	"encoding/json"
 	"fmt"
 	"github.com/resonatehq/resonate/pkg/promise"
+	"math"
 	"net/url"
 	"os"
+	"regexp"
 	"sort"
+	"strconv"
 	"strings"
 	"sync"
 	"testing"
@@ -135,13 +138,15 @@ func ms(d int64) int64 { return time.Now().UnixMilli() + d }
 func (g *gen) next() scenario {
 	g.n++
 	pfx := fmt.Sprintf("s%d-", g.n)
-	k := rapid.IntRange(0, 11).Draw(g.t, "scenario")
+	k := rapid.IntRange(0, 12).Draw(g.t, "scenario")
 	if only := os.Getenv("VERIF_C13_ONLY"); only != "" { // focused exploration of one scenario kind (development aid; not used by the registered commands)
-		k = map[string]int{"status-walk": 10, "mutated": 0, "tagged": 3, "registration": 4, "schedule": 6, "cursor": 8, "grpc": 9}[only]
+		k = map[string]int{"status-walk": 10, "mutated": 0, "tagged": 3, "registration": 4, "schedule": 6, "cursor": 8, "grpc": 9, "lease-edge": 12}[only]
 	}
 	switch k {
 	case 10, 11:
 		return g.statusWalk(pfx)
+	case 12:
+		return g.leaseEdge(pfx)
 	case 0, 1, 2:
 		return g.mutatedRequest(pfx)
 	case 3:
@@ -285,6 +290,55 @@ func (g *gen) taggedPromise(pfx string) scenario {
 		sc.steps = append(sc.steps, step{HTTPReq: HTTPReq{Method: "PATCH", Path: "/promises/" + esc(id), Body: `{"state":"REJECTED_CANCELED"}`}})
 	}
 	return sc
+}
+
+// leaseEdge: leases whose end (clock + ttl) does not fit into 64 bits, or fits when granted and no longer when renewed
+// (placeholders are filled in when the request is sent: @EDGE-n@ = largest int64 - clock - n ms, @NOW+n@ = clock + n ms).
+// The lease is granted, renewed after a pause, used by its holder, and the task's promise times out within the batch's
+// waiting time, so that every background coroutine has read the rows before the dispatch probe.
+func (g *gen) leaseEdge(pfx string) scenario {
+	sc := scenario{name: "lease-edge", pfx: pfx}
+	ttl := g.pick([]string{`"@EDGE-250@"`, `"@EDGE-250@"`, `"@EDGE-0@"`, "9223372036854775807", `"@EDGE-60000@"`}, "edgettl")
+	proc := pfx + "w"
+	raw := func(m, path, body, note string) {
+		sc.steps = append(sc.steps, step{HTTPReq: HTTPReq{Method: m, Path: path, Body: body, Headers: map[string]string{"Content-Type": "application/json"}}, mutation: note})
+	}
+	pause := step{HTTPReq: HTTPReq{Method: "PAUSE", Path: "400"}}
+	if rapid.Bool().Draw(g.t, "edgetask") {
+		id := pfx + "p"
+		raw("POST", "/promises/task", fmt.Sprintf(`{"promise":{"id":%q,"timeout":"@NOW+1300@","tags":{"resonate:invoke":"poll://g/w"}},"task":{"processId":%q,"ttl":%s}}`, id, proc, ttl), "lease-edge create-with-task ttl="+ttl)
+		sc.steps = append(sc.steps, pause)
+		raw("POST", "/tasks/heartbeat", fmt.Sprintf(`{"processId":%q}`, proc), "lease-edge heartbeat")
+		if rapid.Bool().Draw(g.t, "edgecomplete") {
+			raw("POST", "/tasks/complete", fmt.Sprintf(`{"id":"__invoke:%s","counter":1}`, id), "lease-edge complete")
+		} else {
+			raw("POST", "/tasks/claim", fmt.Sprintf(`{"id":"__invoke:%s","counter":1,"processId":"other","ttl":%s}`, id, ttl), "lease-edge claim by another")
+		}
+		raw("GET", "/promises/"+id, "", "")
+	} else {
+		res := pfx + "res"
+		raw("POST", "/locks/acquire", fmt.Sprintf(`{"resourceId":%q,"executionId":"e1","processId":%q,"ttl":%s}`, res, proc, ttl), "lease-edge acquire ttl="+ttl)
+		sc.steps = append(sc.steps, pause)
+		raw("POST", "/locks/heartbeat", fmt.Sprintf(`{"processId":%q}`, proc), "lease-edge heartbeat")
+		raw("POST", "/locks/acquire", fmt.Sprintf(`{"resourceId":%q,"executionId":%q,"processId":%q,"ttl":1000}`, res, g.pick([]string{"e1", "e2"}, "edgeex"), proc), "lease-edge acquire again")
+		raw("POST", "/locks/release", fmt.Sprintf(`{"resourceId":%q,"executionId":"e1"}`, res), "lease-edge release")
+	}
+	sc.labels = append(sc.labels, "lease-edge:"+ttl)
+	return sc
+}
+
+var edgeRe = regexp.MustCompile(`"@(EDGE-|NOW\+)(\d+)@"`)
+
+// fillClock replaces the clock-relative placeholders of a request body at the moment the request is sent
+func fillClock(body string) string {
+	return edgeRe.ReplaceAllStringFunc(body, func(m string) string {
+		sub := edgeRe.FindStringSubmatch(m)
+		n, _ := strconv.ParseInt(sub[2], 10, 64)
+		if sub[1] == "EDGE-" {
+			return strconv.FormatInt(math.MaxInt64-time.Now().UnixMilli()-n, 10)
+		}
+		return strconv.FormatInt(time.Now().UnixMilli()+n, 10)
+	})
 }
 
 func (g *gen) pick1(xs []int64, l string) int64 { return rapid.SampledFrom(xs).Draw(g.t, l) }
@@ -769,6 +823,12 @@ func runBatch(dir string, scs []scenario, checkAnswers bool) outcome {
 				out.died, out.log = true, srv.LogTail(40)
 				return out
 			}
+			if st.Method == "PAUSE" {
+				n, _ := strconv.Atoi(st.Path)
+				time.Sleep(time.Duration(n) * time.Millisecond)
+				continue
+			}
+			st.HTTPReq.Body = fillClock(st.HTTPReq.Body)
 			out.requests++
 			droppedBefore := len(out.dropped)
 			var before core.Snapshot
